@@ -649,6 +649,8 @@ func (in *Interp) load(fr *frame, addr Val) Val {
 		return in.ctx.Select((*p.Cell).(BArr).A, p.Idx)
 	case unsafePtr:
 		return in.load(fr, p.V)
+	case EPtr:
+		return in.selectFromVals(p.Elems, p.Idx)
 	}
 	panic(fmt.Sprintf("load through %T", addr))
 }
@@ -663,6 +665,9 @@ func (in *Interp) store(fr *frame, addr Val, v Val) {
 	case BPtr:
 		a := (*p.Cell).(BArr)
 		*p.Cell = BArr{in.ctx.Store(a.A, p.Idx, v.(*smt.Term))}
+	case EPtr:
+		i := in.Concretize(p.Idx)
+		storeInPlace(&p.Elems[i], v)
 	default:
 		panic(fmt.Sprintf("store through %T", addr))
 	}
@@ -717,6 +722,10 @@ func (in *Interp) indexAddr(fr *frame, x Val, idx *smt.Term, xt, it types.Type) 
 		in.boundsCheck(idx, s.Len, "index out of range")
 		return BPtr{s.Cell, in.ctx.Bin(smt.OpAdd, s.Off, idx)}
 	case Slice:
+		if !idx.IsConst() && scalarElems(s) {
+			in.boundsCheck(idx, in.ctx.Const(64, uint64(len(s))), "index out of range")
+			return EPtr{s, idx}
+		}
 		i := in.concIndex(idx, len(s))
 		return &s[i]
 	case *Val: // pointer to array
@@ -729,11 +738,45 @@ func (in *Interp) indexAddr(fr *frame, x Val, idx *smt.Term, xt, it types.Type) 
 			in.boundsCheck(idx, in.ctx.Const(64, uint64(n)), "index out of range")
 			return BPtr{s, idx}
 		case Arr:
+			if !idx.IsConst() && scalarElems(a) {
+				in.boundsCheck(idx, in.ctx.Const(64, uint64(len(a))), "index out of range")
+				return EPtr{a, idx}
+			}
 			i := in.concIndex(idx, len(a))
 			return &a[i]
 		}
 	}
 	panic(fmt.Sprintf("indexAddr on %T", x))
+}
+
+// EPtr is the address of element Idx (symbolic, in range) of a sequence of scalar or
+// short-string cells; loads become ite chains, stores concretise the index.
+type EPtr struct {
+	Elems []Val
+	Idx   *smt.Term
+}
+
+func scalarElems(vals []Val) bool {
+	if len(vals) == 0 || len(vals) > 256 {
+		return false
+	}
+	if _, ok := vals[0].(*smt.Term); ok {
+		for _, v := range vals {
+			if _, ok := v.(*smt.Term); !ok {
+				return false
+			}
+		}
+		return true
+	}
+	if s0, ok := vals[0].(Str); ok && s0.Len() > 0 && s0.Len() <= 8 {
+		for _, v := range vals {
+			if sv, ok := v.(Str); !ok || sv.Len() != s0.Len() {
+				return false
+			}
+		}
+		return true
+	}
+	return false
 }
 
 // concIndex checks bounds and concretises an index into a concrete-shape sequence.
@@ -780,6 +823,29 @@ func (in *Interp) selectFromVals(vals []Val, idx *smt.Term) Val {
 		if _, ok := v.(*smt.Term); !ok {
 			allTerms = false
 			break
+		}
+	}
+	if !allTerms && len(vals) > 0 {
+		// array of equal-length strings: a symbolic string built byte-wise
+		if s0, ok := vals[0].(Str); ok && s0.Len() > 0 && s0.Len() <= 8 {
+			same := true
+			for _, v := range vals {
+				if sv, ok := v.(Str); !ok || sv.Len() != s0.Len() {
+					same = false
+					break
+				}
+			}
+			if same {
+				out := make([]*smt.Term, s0.Len())
+				for b := range out {
+					res := in.strByte(vals[len(vals)-1].(Str), b)
+					for i := len(vals) - 2; i >= 0; i-- {
+						res = in.ctx.Ite(in.ctx.Eq(idx, in.ctx.Const(64, uint64(i))), in.strByte(vals[i].(Str), b), res)
+					}
+					out[b] = res
+				}
+				return normStr(out)
+			}
 		}
 	}
 	if !allTerms || len(vals) == 0 {
